@@ -244,7 +244,7 @@ FOLDER_SHAPES = [
 ]
 
 
-def make_world(eng, with_db=True, pickle_outcomes=(None,), var_shapes=None):
+def make_world(eng, with_db=True, pickle_outcomes=(None,), var_shapes=None, minimal_env=False):
     w = World()
     w.walked = []
     w.db_label = "MODEL/M.pymoca_cache"
@@ -252,7 +252,8 @@ def make_world(eng, with_db=True, pickle_outcomes=(None,), var_shapes=None):
     w.cache_mtime = eng.input("cache_mtime", eng.fresh_int("T"))
     w.os_name = "posix"
     w.external_fails = None
-    shape = FOLDER_SHAPES[eng.choice(len(FOLDER_SHAPES))]
+    shape = FOLDER_SHAPES[0] if minimal_env else FOLDER_SHAPES[eng.choice(len(FOLDER_SHAPES))]
+    w.minimal_env = minimal_env
     eng.input("folder_shape", {"model_folder": shape[0], "libraries": shape[1]})
     w.folders = {"MODEL": shape[0]}
     w.folders.update(shape[1])
@@ -282,14 +283,14 @@ def make_db(eng, w, var_shapes=None):
     w.cached_version = eng.input("cached_version", eng.fresh_str("ver_cached"))
     w.opt_cached = eng.input("other_option_cached", eng.fresh_int("opt_cached"))
     w.codegen_cached = eng.input("codegen_cached", eng.fresh_bool("codegen_cached"))
-    libs_variant = eng.choice(2)
+    libs_variant = 0 if w.minimal_env else eng.choice(2)
     w.libs_cached_same = libs_variant == 0
     cached_libs = [PathStr(l) for l in w.lib_folders] if libs_variant == 0 else [PathStr("OTHERLIB")]
     eng.input("cached_library_folders", [l.label for l in cached_libs])
     w.cached_options = VDict([("library_folders", VList(cached_libs)), ("mtime_check", True),
                               ("codegen", w.codegen_cached), ("cache", True), ("expand_mx", True),
                               ("other_option", w.opt_cached)])
-    w.library_os = ["posix", "nt"][eng.choice(2)]
+    w.library_os = "posix" if w.minimal_env else ["posix", "nt"][eng.choice(2)]
     eng.input("library_os", w.library_os)
     as_lib = eng.choice(2)
     w.functions = {}
